@@ -269,7 +269,7 @@ def run(tier, V):
             V.violation(key, what, wit)
     cov = {'evaluations': n, 'distinct_nontrivial': nontriv, 'outcomes': stats,
            'rule': ('%d scripts of 1-3 :s commands (random ERE ASTs incl. empty-matching, anchored, word-boundary, groups that do not participate, empty pattern = previous; replacements with \\0-\\9, escapes, multi-byte; g on/off; '
-                    'ranges; ignorecase on/off; several delimiters) over buffers of 2-6 ASCII/multi-byte lines, result file compared with the substitute model (whole-line context).  non-trivial = the model changed at least one line.' % n),
+                    'ranges; ignorecase on/off; several delimiters; the short form without closing delimiter; typed, sourced with :so, or run from a register with @r) over buffers of 2-6 ASCII/multi-byte lines, result file compared with the substitute model (whole-line context).  non-trivial = the model changed at least one line.' % n),
            'samples': [{'lines': c['lines'], 'script': script_of(c).decode('utf-8', 'replace')} for _, _, _, c in res[:3]]}
     assumptions = ['the reference matcher of C10 defines matches; cases whose pattern loops on the empty string or exceeds the model budget are inconclusive',
                    'with g the empty match at the very end of a line is not taken (neatvi\'s choice; the statement does not require it)',
